@@ -14,6 +14,7 @@ import random
 
 from scen import Scn
 import scenario_common as sc
+import mcrapid
 
 RT = ["exits", "ignores", "exited", "neverstarted"]
 EXT = ["sub-exits", "sub-ignores", "sub-notpolling", "unsub", "exited", "launchfail"]
@@ -136,6 +137,8 @@ def scenarios(ctx):
 
 def run(ctx):
     ctx.level = "model_checking"
+    # E1: shutdown by the platform driver and by resets in spec/MC_Rapid.tla; SHUTDOWN only to its subscribers
+    mcrapid.check(ctx, ['EventsOnlyToSubscribers', 'NoCrash'])
     ctx.assumptions += sc.ASSUME + ["time bounds are one-sided with slack: lower bounds -3 ms, upper bounds +1500 ms"]
     sc.run_families(ctx, scenarios(ctx), "shutdown")
     ctx.coverage["exhaustive"] = not ctx.quick
